@@ -609,6 +609,10 @@ type tPerson struct {
 		Keys   []string
 		Values map[string]int64
 	}
+	Colors struct {
+		Keys   []string
+		Values map[string]int64
+	}
 }
 
 var personType = func() schema.Type {
@@ -623,12 +627,17 @@ type Pt struct {
   x Int
   y Int
 } representation tuple
+type Color enum {
+  | Red
+  | Green
+}
 type Person struct {
   name Name
   nick String (rename "n")
   pt Pt
   tags [String]
   attrs {String:Int}
+  colors {Color:Int}
 }
 `))
 	if err != nil {
@@ -641,6 +650,8 @@ func typedPerson() ipld.Node {
 	p := &tPerson{Name: tName{"ada", "lovelace"}, Nick: "al", Pt: tPt{3, 4}, Tags: []string{"x", "y", "z"}}
 	p.Attrs.Keys = []string{"b", "aa"}
 	p.Attrs.Values = map[string]int64{"b": 1, "aa": 2}
+	p.Colors.Keys = []string{"Red", "Green"}
+	p.Colors.Values = map[string]int64{"Red": 7, "Green": 8}
 	return bindnode.Wrap(p, personType)
 }
 
@@ -651,7 +662,7 @@ func typedPerson() ipld.Node {
 func TestTypedSubjects(t *testing.T) {
 	person := typedPerson()
 	whole := val.FromNode(person)
-	names := []string{"name", "first", "last", "nick", "n", "pt", "x", "y", "tags", "attrs", "b", "aa", "zz"}
+	names := []string{"name", "first", "last", "nick", "n", "pt", "x", "y", "tags", "attrs", "b", "aa", "zz", "colors", "Red", "Blue"}
 	var pool []sel.Seg
 	for _, nm := range names {
 		pool = append(pool, sel.Seg{Kind: "field", Name: nm}, sel.Seg{Kind: "field", Name: nm, Opt: true})
